@@ -380,7 +380,7 @@ func checkLuma(c *Ctx, r *Report) {
 				if as, ok := n.(*ast.AssignStmt); ok && as.Tok == token.DEFINE {
 					for _, l := range as.Lhs {
 						if o := identObj(p, l); o != nil && isIntT(o.Type()) {
-							if _, isLoopInit := as.Rhs[0].(*ast.SelectorExpr); isLoopInit || (len(as.Rhs) == 1 && isZeroLit(as.Rhs[0])) {
+							if _, isLoopInit := as.Rhs[0].(*ast.SelectorExpr); isLoopInit || (len(as.Rhs) == 1 && isZeroConst(p, as.Rhs[0])) {
 								env[o] = vint(0)
 							}
 						}
@@ -404,6 +404,12 @@ func checkLuma(c *Ctx, r *Report) {
 			r.Check(bad == "", "T-LUMA", key, c.pos(cc.Pos()), bad)
 		}
 	}
+}
+
+// isZeroConst: a constant expression with the value 0 (a literal or a named constant)
+func isZeroConst(p *packages.Package, e ast.Expr) bool {
+	v, ok := constInt(p, e)
+	return ok && v == 0
 }
 
 func isZeroLit(e ast.Expr) bool {
